@@ -451,7 +451,9 @@ def check(pid, tier, seed, replay=None):
                             rc_cases, _, _, _ = parse_cases(of)
                         except Exception:
                             rc_cases = []
-                        if any(c[0] == x[0] and c[3] != model_out.get(x[0]) for c in rc_cases):
+                        found = [c for c in rc_cases if c[0] == x[0]]
+                        # no observation at all (the replay itself failed) counts as a repetition: never drop what could not be re-examined
+                        if not found or any(c[3] != model_out.get(x[0]) for c in found):
                             again += 1
                     if again >= 1:
                         confirmed.append(x)
